@@ -47,6 +47,49 @@ func (vIdealBLS) Verify(pk tbls.PublicKey, data []byte, sig tbls.Signature) erro
 	return context.Canceled
 }
 
+// Aggregate / VerifyAggregate (ideal): an aggregate of partial tokens over one message carries the SUM of their key ids -
+// exactly what aggregate verification can see (so a batch whose signatures are swapped between signers still verifies as
+// an aggregate, although no single signature verifies for its claimed signer).
+func (vIdealBLS) Aggregate(sigs []tbls.Signature) (tbls.Signature, error) {
+	var out tbls.Signature
+	ok := len(sigs) > 0
+	var sum byte
+	for i, s := range sigs {
+		if s[0] != 1 {
+			ok = false
+		}
+		sum += s[1]
+		for j := 0; j < 8; j++ {
+			if i == 0 {
+				out[2+j] = s[2+j]
+			} else if out[2+j] != s[2+j] {
+				ok = false
+			}
+		}
+	}
+	if ok {
+		out[0], out[1] = 3, sum
+	}
+	return out, nil
+}
+
+func (vIdealBLS) VerifyAggregate(pks []tbls.PublicKey, sig tbls.Signature, data []byte) error {
+	var sum byte
+	for _, pk := range pks {
+		sum += pk[0]
+	}
+	ok := sig[0] == 3 && sig[1] == sum && len(data) >= 8 && len(pks) > 0
+	for i := 0; i < 8 && i < len(data); i++ {
+		if sig[2+i] != data[i] {
+			ok = false
+		}
+	}
+	if ok {
+		return nil
+	}
+	return context.Canceled
+}
+
 const (
 	vPkA = core.PubKey("0xaaaaaaaaaaaaaaaaaaaaaaaaaaaaaaaaaaaaaaaaaaaaaaaaaaaaaaaaaaaaaaaaaaaaaaaaaaaaaaaaaaaaaaaaaaaaaaaa")
 	vPkB = core.PubKey("0xbbbbbbbbbbbbbbbbbbbbbbbbbbbbbbbbbbbbbbbbbbbbbbbbbbbbbbbbbbbbbbbbbbbbbbbbbbbbbbbbbbbbbbbbbbbbbbbb")
